@@ -287,7 +287,8 @@ def opXM (mode ref : String) : Option String :=
     if ref.startsWith "out:" then ofHex (ref.drop 4).toString else none
   let show' (r : Option Bytes × Option Err) : String :=
     (match r.1 with | some b => "out:" ++ toHex b | none => "noout") ++ "|" ++ errTag r.2
-  if mode == "string" then some (show' (Report.exportWithString engine false []))
+  if mode == "string" || mode == "held" then some (show' (Report.exportWithString engine false []))
+  else if mode == "heldreader" then some (show' (Report.exportWith engine false (.content [])))
   else if mode == "nilreport" then some (show' (Report.exportWithString engine true []))
   else if mode == "reader" || mode == "chunked" then some (show' (Report.exportWith engine false (.content [])))
   else if mode == "nilreader" then some (show' (Report.exportWith engine false .nil))
